@@ -124,6 +124,9 @@ def check_bookkeeping(ctx, db):
         ok = len(rems) == 2 and inner is not None and norm(inner.child('cond').text()).endswith('< this->num_elements)') and any(o.endswith('->half_width_and_offset') for o in objs)
         ok = ok and all(norm(c.args[0].text()) == norm(rems[0].args[0].text()) for c in rems)
         ok = ok and el is not None and any(u.k == 'UnaryOperator' and u.op in ('++', 'post++') for u in el.walk()) and not any(u.k == 'UnaryOperator' and u.op in ('++', 'post++') and u.child('sub').k == 'DeclRefExpr' and u.child('sub').n == 'i' for u in th.walk())
+    cmpx = [x for x in f.walk() if x.k == 'BinaryOperator' and x.op in ('<', '<=') and 'length_sq' in norm(x.child('lhs').text())]
+    ctx.check(len(cmpx) == 1 and cmpx[0].op == '<' and norm(cmpx[0].child('rhs').text()) == 'tol_sq', 'R-TABLE', 'remove_overlapping_points/strictly-closer', f.loc(), 'points are merged only when STRICTLY closer than the tolerance: a loaded path has a tolerance of exactly one grid step, so vertices one step apart survive a re-save',
+              'the merge test is `%s`: vertices exactly one tolerance apart (one grid step after loading a file) are merged on the next save' % (norm(cmpx[0].text()) if cmpx else '?'))
     ctx.check(ok, 'R-PAIRCALL', 'remove_overlapping_points/paired-removal', f.loc(), 'a removed spine point takes the same index out of every element; the index advances only when nothing was removed')
 
 
